@@ -387,8 +387,8 @@ fn checked_div(&self, rhs: &Int<LIMBS>) -> (ret__: CtOption<Self>)
 //@@ fn src/int/div.rs | impl<const LIMBS: usize> DivVartime for Int<LIMBS> | div_vartime | body | props C14 C11 C15
 impl<const LIMBS: usize> DivVartime for Int<LIMBS> {
 //@+
-    // FINDING: panics for MIN / -1 (`new_from_abs_sign(2^(BITS-1), positive)` is none), although the `expect` message says
-    // "int divided by int fits in uint by construction"; hence the third conjunct of the precondition
+    // documented panic (since fix 98a36a6): MIN / -1 overflows (`new_from_abs_sign(2^(BITS-1), positive)` is none); hence the
+    // third conjunct of the precondition. Before the fix the `expect` message claimed this could not happen.
     open spec fn div_vartime_req(&self, rhs: &NonZero<Int<LIMBS>>) -> bool { 1 <= LIMBS < 0x400_0000 && rhs.0.iv() != 0 && !(self.iv() == -ih(LIMBS as nat) && rhs.0.iv() == -1) }
     open spec fn div_vartime_ens(&self, rhs: &NonZero<Int<LIMBS>>, r: Self) -> bool { r.iv() == trunc_q(self.iv(), rhs.0.iv()) }
 //@-
@@ -408,7 +408,7 @@ fn div_vartime(&self, rhs: &NonZero<Int<LIMBS>>) -> (ret__: Self)
     }
 //@-
         let q = Int::new_from_abs_sign(q, opposing_signs);
-        q.expect("int divided by int fits in uint by construction")
+        q.expect("attempted to divide with overflow")
     }
 }
 //@@ end
